@@ -9,9 +9,16 @@ for d in sorted(glob.glob(os.path.join(ROOT, "seeded", "*"))):
         continue
     m = json.load(open(mp))
     det = m.get("detection", {})
-    rows.append("| %s | %s | %s | %s | %s | %s |" % (
+    c = m.get("confirmed")
+    conf = "-" if not c else ("yes" if c.get("demo_passes_without_change") and c.get("demo_fails_with_change") else
+                              ("demo passes with the change on HEAD" if c.get("demo_passes_without_change") else "no"))
+    if c:
+        conf += " (suite: %s)" % c.get("existing_suite_with_change", "?")
+    if m.get("note"):
+        conf += " NOTE: " + m["note"].replace("|", "/")[:300]
+    rows.append("| %s | %s | %s | %s | %s | %s | %s |" % (
         os.path.basename(d), m.get("property", ""), m.get("summary", "").replace("|", "/")[:260],
-        m.get("needs", "").replace("|", "/")[:260],
+        m.get("needs", "").replace("|", "/")[:260], conf,
         ", ".join("%s: %s" % (k, v.get("verdict", "")) for k, v in sorted(det.items())) or "(not evaluated yet)",
         "; ".join(sorted({v.get("first", "")[:160].replace("|", "/") for v in det.values() if v.get("first")}))))
 out = ["# Seeded breaking changes", "",
@@ -21,5 +28,5 @@ out = ["# Seeded breaking changes", "",
        "property text and its own scratch worktree of /repo. None is ever committed to /repo. Evaluate one with",
        "`tools/try_seed.sh seeded/<id>/patch.diff <Cxx> ...` (scratch worktree + `VERIF_REPO`), or apply/check/undo in /repo:",
        "`git -C /repo apply <patch>; ./bin/check <Cxx>; git -C /repo checkout -- .`", "",
-       "| Seed | Property | Change | Needs | Checks (verdict) | First report |", "|---|---|---|---|---|---|"] + rows
+       "| Seed | Property | Change | Needs | Confirmed (demo fails with / passes without the change; existing suite with it) | Checks (verdict) | First report |", "|---|---|---|---|---|---|---|"] + rows
 open(os.path.join(ROOT, "seeded", "README.md"), "w").write("\n".join(out) + "\n")
